@@ -40,6 +40,83 @@ theorem execute_delay_witness :
     (exec s (2 ^ 63 - 1) 0 0 0 4).isSome = true ∧ (2 ^ 63 - 1 : Int) < b.approvedAt + s.delay := by
   decide
 
+/-! ## account binding: the delay that gates execution is the delay of the store's OWN config
+
+`execute_instruction` reads the delay from whichever `TimelockConfig` account it is handed. The
+`has_one = store` constraints make that the config of the store whose roles were checked; a config
+account is a PDA of `[SEED, store]`, so there is exactly one per store. -/
+
+/-- accounts of another store are rejected, whatever they say -/
+theorem execWith_foreign_rejected (me : Nat) (s : St) (a : Supplied) (now : Int) (caller id r rr : Nat)
+    (h : a.cfgStore ≠ me ∨ a.exeStore ≠ me ∨ a.bufExeOwn = false) : execWith me s a now caller id r rr = none := by
+  unfold execWith
+  rcases h with h | h | h
+  · simp [h]
+  · by_cases h1 : a.cfgStore = me <;> simp [h, h1]
+  · by_cases h1 : a.cfgStore = me <;> by_cases h2 : a.exeStore = me <;> simp [h, h1, h2]
+
+/-- with the store's own accounts the instruction is exactly `exec` -/
+theorem execWith_own (me : Nat) (s : St) (now : Int) (caller id r rr : Nat) :
+    execWith me s (own me s) now caller id r rr = exec s now caller id r rr := by
+  unfold execWith own
+  simp only [ne_eq, not_true_eq_false, if_false, Bool.not_true, Bool.false_eq_true]
+  have : ({ s with delay := s.delay } : St) = s := rfl
+  rw [this]
+  cases h : exec s now caller id r rr with
+  | none => rfl
+  | some p =>
+    obtain ⟨s', ix⟩ := p
+    obtain ⟨b, a, hb, _, _, _, _, _, _, _, _, rfl⟩ := exec_some h
+    rfl
+
+/-- **The delay clause over supplied accounts**: whatever config account is passed — as long as the only
+config that names this store carries the store's delay (PDA uniqueness) — a successful execution happened
+no earlier than `approved_at ⊕ the store's own delay`. -/
+theorem execWith_respects_own_delay (me : Nat) {s s' : St} {a : Supplied} {now : Int} {caller id r rr : Nat} {ix : Ix}
+    (huniq : a.cfgStore = me → a.cfgDelay = s.delay)
+    (h : execWith me s a now caller id r rr = some (s', ix)) :
+    ∃ b, s.bufs id = some b ∧ b.approved = true ∧ executableAt b.approvedAt s.delay ≤ now ∧ ix = b.ix := by
+  unfold execWith at h
+  split at h
+  · cases h
+  · rename_i hc
+    split at h
+    · cases h
+    · split at h
+      · cases h
+      · have hd : a.cfgDelay = s.delay := huniq (by simpa using hc)
+        rw [hd] at h
+        have : ({ s with delay := s.delay } : St) = s := rfl
+        rw [this] at h
+        cases he : exec s now caller id r rr with
+        | none => rw [he] at h; cases h
+        | some p =>
+          obtain ⟨s1, ix1⟩ := p
+          rw [he] at h
+          simp only [Option.some.injEq, Prod.mk.injEq] at h
+          obtain ⟨b, _, hb, hap, _, _, ht, _, hix, _⟩ := execute_requires he
+          exact ⟨b, hb, hap, ht, h.2 ▸ hix⟩
+
+theorem increaseDelayWith_foreign_rejected (me : Nat) (s : St) (a : Supplied) (caller delta : Nat)
+    (h : a.cfgStore ≠ me) : increaseDelayWith me s a caller delta = none := by
+  simp [increaseDelayWith, h]
+
+theorem approve_cancel_foreign_rejected (me : Nat) (s : St) (a : Supplied) (now : Int) (caller id r rr : Nat)
+    (h : a.exeStore ≠ me ∨ a.bufExeOwn = false) :
+    approveWith me s a now caller id r = none ∧ cancelWith me s a caller id r rr = none := by
+  unfold approveWith cancelWith
+  rcases h with h | h
+  · simp [h]
+  · by_cases h1 : a.exeStore = me <;> simp [h, h1]
+
+/-- non-vacuity: the same approved buffer runs with the own config after the delay, and not with a foreign
+config of delay 0 one second after approval -/
+example :
+    let b : Buf := ⟨0, true, 1000, some 2, 4, ⟨1, "-", []⟩⟩
+    let s : St := ⟨600, fun u r => (u == 0 && r == KEEPER) || (u == 2 && r == tld 0), fun i => if i = 0 then some b else none⟩
+    (execWith 0 s (own 0 s) 1600 0 0 0 4).isSome = true ∧ (execWith 0 s (own 0 s) 1599 0 0 0 4).isSome = false ∧
+    (execWith 0 s ⟨1, 0, 0, true⟩ 1001 0 0 0 4).isSome = false := by decide
+
 /-- **Approval happens at most once**: approving requires an unapproved buffer of the executor named by
 the role, by a holder of the timelocked role; it records approver and time and leaves the buffered
 instruction untouched … -/
